@@ -580,3 +580,30 @@ Example catalogue_nonvacuous :
   | None => False
   end.
 Proof. vm_compute. repeat split; reflexivity. Qed.
+
+(* ------------------------------------------------------------------------------------------------------
+   heuristics: the only producer of a split position.  decisions_ok (hypothesis H3 of create_extract_roundtrip)
+   asks of the decision oracle only that a Split position pos satisfies k+1 <= pos <= len-(k+1).  On the live
+   path a SplitAt(pos) decision comes from one place, the post-processing of the cost minimum at the end of
+   find_split_by_cost (SplitPos.v transcribes those lines; translator/items_splitpos.py pins their text and that
+   classify_raw_segments_at_barrier constructs no SplitAt itself).  Whatever the cost vectors are, the position
+   it lets through meets decisions_ok - so that hypothesis is discharged for the real heuristics, up to the pin. *)
+From Ragc Require Import Consts_splitpos SplitPos SplitPos_proofs.
+
+Theorem split_post_source_pinned : split_post_shape_pinned = true.
+Proof. reflexivity. Qed.
+Print Assumptions split_post_source_pinned.
+
+Theorem heuristic_split_positions_ok :
+  forall (k : nat) (s : segment) (refs_empty : bool) (best_pos p : nat) (o lflag rflag : bool),
+  split_post k (length (sdata s)) refs_empty best_pos = SD_SplitAt p ->
+  decision_okb k s (Split o p lflag rflag) = true.
+Proof.
+  intros k s re b p o lf rf H. apply SplitPos_proofs.split_post_range in H. destruct H as [H1 H2].
+  unfold decision_okb, split_min_size. apply andb_true_intro. split; apply Nat.leb_le; assumption.
+Qed.
+Print Assumptions heuristic_split_positions_ok.
+Example heuristic_split_nonvacuous :
+  split_post 3 20 false 9 = SD_SplitAt 9 /\ split_post 3 20 false 2 = SD_AssignRight /\
+  split_post 3 20 false 17 = SD_AssignLeft /\ split_post 3 7 false 4 = SD_NoDecision.
+Proof. vm_compute. repeat split; reflexivity. Qed.
